@@ -1,6 +1,8 @@
 \* C29 PoSA: family pixie, chain configuration B (MCPoSA!SetsB), mode sim
 SPECIFICATION SimSpec
 CONSTANTS Family = "pixie"
+          Epoch = 0
+          CliqueFixed = FALSE
           Sets <- SetsB
           GenesisSigner = "c"
           G0 = 200
